@@ -28,6 +28,8 @@ type c17Case struct {
 	DotPath  bool   `json:"dotPath"`  // PATH starts with "."
 	RelPath  string `json:"relPath"`  // PATH starts with a named relative entry ("bin", "./bin")
 	Switch   bool   `json:"switch"`   // use the plugin twice, PATH pointing at another directory the second time
+	// ExecErrDot: the environment carries GODEBUG=execerrdot=0 (the documented Go switch that lets os/exec run programs found through relative PATH entries)
+	ExecErrDot bool `json:"execErrDot,omitempty"`
 }
 
 var c17Valid = regexp.MustCompile(`^[A-Za-z0-9+._-]+$`)
@@ -116,7 +118,7 @@ func c17Check(c c17Case, st *stats.Run) error {
 			class = "name-with-separator"
 		}
 	}
-	st.Case(bechOK, stats.HashJSON(c), "pos="+c.Position, class, fmt.Sprintf("dotPath=%v", c.DotPath), fmt.Sprintf("relPath=%v", c.RelPath != ""), fmt.Sprintf("path-switch=%v", c.Switch))
+	st.Case(bechOK, stats.HashJSON(c), "pos="+c.Position, class, fmt.Sprintf("dotPath=%v", c.DotPath), fmt.Sprintf("relPath=%v", c.RelPath != ""), fmt.Sprintf("path-switch=%v", c.Switch), fmt.Sprintf("godebug-execerrdot0=%v", c.ExecErrDot))
 	st.Sample(c.Position+"/"+class, c)
 	d, err := c17Setup(c.Name, true)
 	if err != nil {
@@ -154,10 +156,21 @@ func c17Check(c c17Case, st *stats.Run) error {
 	os.Setenv("TMPDIR", d.tmp)
 	os.Setenv(hx.PlugEnv, d.root)
 	os.Chdir(d.cwd)
+	oldDebug, hadDebug := os.LookupEnv("GODEBUG")
+	if c.ExecErrDot {
+		os.Setenv("GODEBUG", "execerrdot=0")
+	}
 	defer func() {
 		os.Chdir(oldWd)
 		os.Setenv("PATH", oldPath)
 		os.Setenv("TMPDIR", oldTmp)
+		if c.ExecErrDot {
+			if hadDebug {
+				os.Setenv("GODEBUG", oldDebug)
+			} else {
+				os.Unsetenv("GODEBUG")
+			}
+		}
 	}()
 
 	ui := &plugin.ClientUI{}
@@ -232,6 +245,14 @@ func c17Check(c c17Case, st *stats.Run) error {
 	if starts[0].Data != wantExe {
 		return pbt.Failf("C17/wrong-program", "using plugin %q started %s, the PATH search for age-plugin-%s gives %s", c.Name, starts[0].Data, wantName, wantExe)
 	}
+	if id != nil && !c.Switch {
+		// the identity used for encryption: the same program, asked for the recipient protocol
+		pbt.Watchdog(30*time.Second, func() { id.Recipient().Wrap(make([]byte, 16)) })
+		all := c17Starts(d)
+		if len(all) != 2 || all[1].Data != wantExe || len(all[1].Args) != 1 || all[1].Args[0] != "--age-plugin=recipient-v1" {
+			return pbt.Failf("C17/wrong-program", "Identity.Recipient().Wrap for plugin %q started %+v, want %s --age-plugin=recipient-v1", c.Name, all[1:], wantExe)
+		}
+	}
 	if c.Switch {
 		os.Setenv("PATH", d.d2)
 		pbt.Watchdog(30*time.Second, func() {
@@ -291,6 +312,12 @@ func c17CheckCLI(c c17Case, d *c17Dirs, str string, valid bool) error {
 	}
 	ageBin := filepath.Join(bin, "age")
 	env := []string{"PATH=" + d.d1 + ":" + d.d2, "TMPDIR=" + d.tmp, "HOME=" + d.cwd, hx.PlugEnv + "=" + d.root}
+	if c.DotPath {
+		env[0] = "PATH=.:" + d.d1 + ":" + d.d2
+	}
+	if c.ExecErrDot {
+		env = append(env, "GODEBUG=execerrdot=0")
+	}
 	os.WriteFile(filepath.Join(d.cwd, "in.txt"), []byte("hello"), 0o644)
 	var code int
 	var stderr string
@@ -321,6 +348,9 @@ func c17CheckCLI(c c17Case, d *c17Dirs, str string, valid bool) error {
 		wantName = c.Name
 	}
 	wantExe := filepath.Join(d.d1, "age-plugin-"+wantName)
+	if c.DotPath && len(starts) == 0 && code != 0 {
+		return nil // a program found through "." is refused
+	}
 	if len(starts) != 1 || starts[0].Data != wantExe {
 		return pbt.Failf("C17/wrong-program", "age %s %q: started %+v, want exactly %s (exit %d, stderr %q)", c.Position, str, starts, wantExe, code, trunc([]byte(stderr)))
 	}
@@ -364,7 +394,7 @@ func c17CheckHdr(c c17Hdr, st *stats.Run) error {
 		}
 		os.WriteFile(filepath.Join(d.cwd, "f.age"), f.Bytes(), 0o644)
 		os.WriteFile(filepath.Join(d.cwd, "key.txt"), []byte(refage.Bech32Encode("AGE-SECRET-KEY-", p.X25519[0])+"\n"), 0o600)
-		env := []string{"PATH=" + d.d1 + ":" + d.d2, "TMPDIR=" + d.tmp, "HOME=" + d.cwd, hx.PlugEnv + "=" + d.root}
+		env := []string{"PATH=.:" + d.d1 + ":" + d.d2, "TMPDIR=" + d.tmp, "HOME=" + d.cwd, hx.PlugEnv + "=" + d.root, "GODEBUG=execerrdot=0"}
 		code, out, stderr := runCLI(d.cwd, env, nil, filepath.Join(bin, "age"), "-d", "-i", "key.txt", "f.age")
 		if n := len(c17Starts(d)); n != 0 {
 			return pbt.Failf("C17/started-by-header", "age -d with a native identity started %d plugin process(es) because the header mentions stanza types %v", n, c.Types)
@@ -450,6 +480,7 @@ func TestC17(t *testing.T) {
 		case 1, 2:
 			c.DotPath, c.Switch = false, true
 		}
+		c.ExecErrDot = rapid.IntRange(0, 3).Draw(t, "execerrdot") == 0
 		if c.Position == "identity" {
 			c.Name = strings.ToUpper(c.Name)
 			if rapid.IntRange(0, 9).Draw(t, "keepCase") == 0 {
@@ -463,6 +494,8 @@ func TestC17(t *testing.T) {
 		if c.Position == "cli-i" {
 			c.Name = strings.ToUpper(c.Name)
 		}
+		c.DotPath = rapid.IntRange(0, 3).Draw(t, "dot") == 0
+		c.ExecErrDot = rapid.IntRange(0, 2).Draw(t, "execerrdot") == 0
 		return c
 	}, check)
 
